@@ -1,4 +1,5 @@
-\* current, intended and the two partial repairs, explored completely (emission with verdicts)
+\* current code, the code before the repairs and the two partial repairs, explored completely
+\* (emission with verdicts; Atomic is not an invariant here because the historic protocols violate it)
 SPECIFICATION FairSpec
 CONSTANTS
   Configs <- AllConfigs
